@@ -28,8 +28,8 @@ TRUSTED = [
     "sqrt and pow are oracle parameters in the theorems; the driver evaluates them with Lean Float (libm pow, IEEE sqrt)",
     "pandas Series.std/pct_change/shift/prod and numpy.cov are assumed to implement their documented formulas (the oracle recomputes them "
     "from the definitions on every case)",
-    "tolerances: 1e-9 relative; for quantities formed by a cancelling subtraction (rate = multiple - 1, APR = gross - 1, Sharpe numerator, alpha) "
-    "relative to the operands' magnitude; series whose return variance is below 1e-12 of the squared mean are compared by outcome class only",
+    "tolerances: 1e-9 relative; for quantities formed by a cancelling subtraction (rate = multiple - 1, total return and APR = gross - 1, Sharpe "
+    "numerator, alpha) 1e-9 of the operands' magnitude (1 for returns); series whose return variance is below 1e-12 of the squared mean are compared by outcome class only",
 ]
 ASSUMPTIONS = ["net values are positive finite floats (the property's domain); zeros/negatives are exercised only for the outcome class",
                "durations and intervals are Python floats, net values numpy float64, as inside performance_metrics"]
@@ -345,7 +345,7 @@ def check_returns(ctx, case, batch):
         oc_e, tot_e = call(return_rate, np.float64(xs[0]), np.float64(xs[-1]))
         tot_n = float(pd.Series(mult).prod()) - 1
         tot_r = float((pd.Series(rates) + 1).prod()) - 1
-        if oc_e != "ok" or not (close(tot_e + 1, gross) and close(tot_n + 1, gross) and close(tot_r + 1, gross)):
+        if oc_e != "ok" or not (close(tot_e, gross - 1, 1) and close(tot_n, gross - 1, 1) and close(tot_r, gross - 1, 1)):
             ctx.violate("total_return.forms", f"total return by end points {tot_e!r}, by multiples {tot_n!r}, by rates {tot_r!r}, definition {float(gross - 1)!r}", case)
             ok = False
         if float(return_value(xs[0], xs[-1])) != xs[-1] - xs[0]:
@@ -362,7 +362,7 @@ def check_returns(ctx, case, batch):
         cls = "ok" if fin(want_c) else "nonfinite"
         for form in ("endpoints", "nets", "rates"):
             oc, v = forms[("compound", form)]
-            if oc != cls or (oc == "ok" and not close(v + 1, Fraction(want_c) + 1)):
+            if oc != cls or (oc == "ok" and not close(v, Fraction(want_c), 1)):
                 ctx.violate("annualized_return.forms", f"compound annualised return via {form} = {oc} {v!r}, direct (last/first)**(365/d)-1 = {want_c!r}", case)
                 ok = False
         for form in ("endpoints", "nets"):
@@ -397,7 +397,7 @@ def check_returns(ctx, case, batch):
         def h(ans, oc=oc, v=v, it=it, form=form):
             if ans["outcome"] != oc:
                 ctx.disagree(f"annualized {it}/{form}: impl {oc} {v!r} model {ans}", case)
-            elif oc == "ok" and not close(v + 1, Fraction(ans["value"]) + 1, 1 if it == "compound" else Fraction(365) / abs(Fraction(d))):
+            elif oc == "ok" and not close(v, Fraction(ans["value"]), 1 if it == "compound" else Fraction(365) / abs(Fraction(d))):
                 ctx.disagree(f"annualized {it}/{form}: impl {v!r} model {ans['value'][:40]}", case)
         batch.add(req, h)
 
@@ -548,8 +548,8 @@ def check_perf(ctx, case, batch):
             if bs is not None:
                 bf = pd.Series(bs, index=idx, dtype=float)
                 ab = call(alpha_beta, sf, bf, dd)
-                direct["alpha"] = (ab[0], ab[1][0] if ab[1] else None)
-                direct["beta"] = (ab[0], ab[1][1] if ab[1] else None)
+                for k, name in enumerate(("alpha", "beta")):
+                    direct[name] = (ab[0], None) if ab[1] is None else ("ok" if fin(ab[1][k]) else "nonfinite", ab[1][k])
                 direct["benchRate"] = call(return_rate, np.float64(bs[0]), np.float64(bs[-1]))
                 direct["benchApr"] = call(annualized_return, dd, np.float64(bs[0]), np.float64(bs[-1]))
             else:
@@ -567,7 +567,7 @@ def check_perf(ctx, case, batch):
             if out["mdd"][0] != "ok" or not close(out["mdd"][1], spec):
                 ctx.violate("performance_metrics.mdd-def", f"reported max drawdown {out['mdd']} != largest relative decline {float(spec)!r}", case)
                 bad = True
-            if out["returnRate"][0] != "ok" or not close(out["returnRate"][1] + 1, fx[-1] / fx[0]):
+            if out["returnRate"][0] != "ok" or not close(out["returnRate"][1], fx[-1] / fx[0] - 1, 1):
                 ctx.violate("performance_metrics.return-def", f"reported rate of return {out['returnRate']} != last/first - 1", case)
                 bad = True
     elif positive:
@@ -660,7 +660,7 @@ def random_cases(ctx):
         out.append({"fn": "returns", "xs": [repr(v) for v in xs], "d": repr(float(d)), "shape": shape, "dk": f"{name}/{dk}"})
     for _ in range(ctx.scale(220, 2500)):
         shape = rng.choice(["walk", "walk", "rising", "falling", "vshape", "constant", "grid", "ints"])
-        n = min(gen_len(rng, ctx.thorough), 300 if ctx.thorough else 60)
+        n = min(gen_len(rng, ctx.thorough), 200 if ctx.thorough else 60)
         name, sec = rng.choice(INTERVALS)
         daily = sec >= 86400
         sigma = 0.02 * math.sqrt(sec / 86400) * rng.choice([0.3, 1, 3])
@@ -672,7 +672,7 @@ def random_cases(ctx):
                     "rf": repr(rng.choice([0.0, 0.03, 0.05])), "shape": shape})
     for _ in range(ctx.scale(160, 2000)):
         shape = rng.choice(["walk", "walk", "rising", "falling", "vshape", "latepeak"])
-        n = min(gen_len(rng, ctx.thorough), 200 if ctx.thorough else 50)
+        n = min(gen_len(rng, ctx.thorough), 120 if ctx.thorough else 50)
         name, sec = rng.choice(INTERVALS)
         sigma = 0.02 * math.sqrt(sec / 86400) * rng.choice([0.3, 1, 3])
         xs = gen_series(rng, shape if shape != "latepeak" or sec >= 86400 else "walk", n, sigma)
